@@ -485,6 +485,17 @@ def rule_r7(ctx, sylvia_expanded, rule="R7.remote"):
         if cs is None or mentions or macs:
             ctx.violation(rule, ["schema_name"], f"{rel}:{fn['ln']}", "a constant string independent of the type parameter", "computed" if cs is None else f"mentions {[m['s'] if 's' in m else '?' for m in mentions]}",
                           "schema name does not depend on the contract type")
+        # every other identity the schema generator consults (schema_id decides whether two occurrences are ONE definition, and a
+        # second id under a taken name is published as `Remote2`) must be independent of the type parameter as well
+        for other in imp["items"]:
+            if other.get("k") != "fn" or other["name"] in ("schema_name", "json_schema"):
+                continue
+            ctx.inst(rule + ".schema_identity", distinct=other["name"])
+            dep = A.find_all(other["body"], lambda n: isinstance(n, dict) and n.get("k") == "path" and any(s["id"] in ("type_name", "Contract", "Self", "TypeId", "type_id") for s in n["path"]["segs"]))
+            macs2 = A.find_all(other["body"], lambda n: isinstance(n, dict) and n.get("k") == "macro")
+            if dep or macs2:
+                ctx.violation(rule, ["schema-identity", other["name"]], f"{rel}:{other['ln']}", f"`{other['name']}` independent of the type parameter (a constant)",
+                              "mentions the type parameter / builds a string" , "schema identity does not depend on the contract type")
         for p in imp["generics"]["params"]:
             if p["k"] == "type" and [x for x in p["bounds"] if not x.get("maybe")]:
                 ctx.violation(rule, ["schema-bounds"], f"{rel}:{imp['ln']}", "no bound on Contract in the JsonSchema impl", [x["s"] for x in p["bounds"]])
